@@ -17,7 +17,8 @@ CLAIMS = {
              'gen_int_param_is_model, gen_int_param_name_is_model, gen_int_param_literal, gen_int_param_default, gen_in_param_calls, '
              'gen_in_window_is_model, gen_in_bwin_is_model, gen_in_batch_vars_is_model, gen_in_mode_is_model, '
              'gen_in_previous_is_model, gen_in_next_is_model, gen_in_previous_is_inBatch, gen_in_next_is_inBatch, '
-             'gen_in_single_is_links); model tied to /repo by a correspondence run over the '
+             'gen_in_single_is_links; the five int_param calls composed in source order are one run of resolveNames with the same '
+             'fuel: gen_in_params_is_resolveNames, gen_in_params_names, gen_in_params_literals); model tied to /repo by a correspondence run over the '
              'exhaustive small-scope grid (windows, links, batch lists incl. overlap >= size) plus an independent oracle on the '
              'real tag',
         note='Trusted: Lean kernel (axioms propext/Classical.choice/Quot.sound only); hand-written model of '
